@@ -239,8 +239,19 @@ class ServerHandle:
         if not bound.wait(STEP_TIMEOUT) or self.addr is None:
             raise RuntimeError(f"server {kind}/{maxc} did not bind: {self.died}")
 
-    def connect(self, name: str) -> tuple[Any, Any]:
-        """Connect a client whose end is bound to a known address; returns (peer key, transport)."""
+    def connect(self, name: str, seg: Any = None) -> tuple[Any, Any]:
+        """Connect a client whose end is bound to a known address; returns (peer key, transport).
+
+        With ``seg`` (a client-owned ShmSegment) the client side is a ShmPipeTransport: every request advertises the
+        segment (vgi_rpc.shm_segment_name/size) and batches travel through it -- the server's dynamic attach path."""
+        key, tr = self._connect(name)
+        if seg is not None:
+            from vgi_rpc.rpc import ShmPipeTransport
+
+            tr = ShmPipeTransport(tr, seg)
+        return key, tr
+
+    def _connect(self, name: str) -> tuple[Any, Any]:
         if self.kind == "unix":
             s = socket.socket(socket.AF_UNIX, socket.SOCK_STREAM)
             path = os.path.join(self.tmpdir, name)
@@ -345,15 +356,21 @@ class Client:
             self._end_call()
             return
         if z["it"] is not None:
-            ok = self._guard(lambda: ev.append(I._batch_event(next(z["it"]))))
+            ok = self._guard(lambda: self._take(next(z["it"])))
         else:
-            ok = self._guard(lambda: ev.append(I._batch_event(z["s"].exchange(I.input_batch(z["j"])))))
+            ok = self._guard(lambda: self._take(z["s"].exchange(I.input_batch(z["j"]))))
             z["j"] += 1
         if not ok:
             self._end_call()
             return
         if z["left"] is not None:
             z["left"] -= 1
+
+    def _take(self, ab: Any) -> None:
+        self.cur.append(I._batch_event(ab))
+        rel = getattr(ab, "release", None)  # a batch that travelled through shared memory gives its region back
+        if callable(rel):
+            rel()
 
     def _loop(self) -> None:
         while True:
@@ -387,7 +404,7 @@ class Client:
 # --------------------------------------------------------------------------- the controller
 def run_case(handle: ServerHandle, scripts: list[list[list[Any]]], rng: Any, tag: str, presend: bool = True,
              fixed_schedule: list[int] | None = None, is_crash: Any = None, serve_raises: tuple[int, ...] = (),
-             arrivals_during_first_bind: int = 1) -> dict[str, Any]:
+             arrivals_during_first_bind: int = 1, shm_segment: Any = None) -> dict[str, Any]:
     """Run the connection scripts concurrently under a seeded client-side schedule.
 
     Returns {"traces": per connection list of per-call traces, "schedule": observed linearisation (list of connection
@@ -560,7 +577,7 @@ def run_case(handle: ServerHandle, scripts: list[list[list[Any]]], rng: Any, tag
                     i = rng.choice(live)
             c = clients[i]
             if phase[i] == "fresh":
-                c.key, c.transport = handle.connect(f"{tag}-c{i}.sock")
+                c.key, c.transport = handle.connect(f"{tag}-c{i}.sock", shm_segment)
                 if i in serve_raises:
                     g.raise_keys.add(c.key)
                 c.proxy = RpcConnection(I.Interp, c.transport, on_log=c.rec.on_log).__enter__()
